@@ -116,16 +116,28 @@ pub fn run(case: &Value) -> (Outcome, Value) {
     let text = render::expr(&case["e"]);
     let store = case["store"].as_bool().unwrap_or(false);
     let (got, evs): (Option<Val>, Vec<Ev>) = if store {
-        let line = format!("A%={}", text);
+        let target = match case["target"].as_str() {
+            Some(t) if !t.is_empty() => t.to_string(),
+            _ => "A%".to_string(),
+        };
+        let line = format!("{}={}", target, text);
         lines.push(line.clone());
         let evs = run_line(&mut s, &line);
         let p = s.probe();
+        // an unassigned (default-valued) variable occupies no slot: it reads as the default of
+        // the type the specification expects
+        let dflt = match t {
+            "S" => Val::Single(0.0),
+            "D" => Val::Double(0.0),
+            "$" => Val::String("".into()),
+            _ => Val::Integer(0),
+        };
         let v = p
             .vars
             .iter()
-            .find(|(k, _)| k == "A%")
+            .find(|(k, _)| *k == target)
             .map(|(_, v)| v.clone())
-            .unwrap_or(Val::Integer(0));
+            .unwrap_or(dflt);
         (Some(v), evs)
     } else {
         lines.push(format!("PRINT {};", text));
